@@ -15,3 +15,32 @@ package utf8lib
 //@   exits any
 //@   allocs charged slack 0
 //@   loop 1: invariant true
+
+// C04: the scanning loops of the utf8 library stay inside the string for all
+// positions and all byte contents (the decoders consume 1..6 bytes, never more
+// than is left: luastrings contracts).
+//@ func codepoint
+//@   prop C04
+//@   arith int
+//@   requires t != nil && t.Runtime != nil && c != nil && c.GoFunction != nil && c.next != nil && 0 <= c.nArgs && c.nArgs <= len(c.args) && len(c.args) == 4
+//@   modifies everything()
+//@   exits ContextTerminationError
+//@   loop 1: invariant 0 <= k && j <= len(s)
+
+//@ func lenf
+//@   prop C04
+//@   arith int
+//@   requires t != nil && t.Runtime != nil && c != nil && c.GoFunction != nil && c.next != nil && 0 <= c.nArgs && c.nArgs <= len(c.args) && len(c.args) == 4
+//@   modifies everything()
+//@   exits ContextTerminationError
+//@   loop 1: invariant 0 <= k && j <= len(s)
+
+//@ func offset
+//@   prop C04
+//@   arith int
+//@   requires t != nil && t.Runtime != nil && c != nil && c.GoFunction != nil && c.next != nil && 0 <= c.nArgs && c.nArgs <= len(c.args) && len(c.args) == 3
+//@   modifies everything()
+//@   exits ContextTerminationError
+//@   loop 1: invariant -1 <= i && i <= len(s)
+//@   loop 2: invariant -1 <= i && i <= len(s)
+//@   loop 3: invariant -1 <= i && i <= len(s)
